@@ -472,6 +472,78 @@ func VariationsOf(base *wire.N, encode func(*wire.N) []wire.Mark, seed int64, ke
 	}
 }
 
+// NodePairVariations yields, for a base tree, every tree that differs from it in two scalar fields of
+// the same element, each set to one of {0, 1, largest, largest-2}: the values that formats give a
+// meaning of their own (none / any / controller / no-buffer ...). An encoder or decoder that treats
+// one field differently depending on another field of the same element shows only under such pairs.
+// keep restricts the fields taken (both fields of a pair must be kept).
+func NodePairVariations(base *wire.N, encode func(*wire.N) []wire.Mark, keep func(node *wire.N, field string) bool, f func(t *wire.N, what string)) {
+	work := base.Clone()
+	marks := encode(work)
+	type site struct {
+		node *wire.N
+		name string
+		w    int
+		path string
+	}
+	byNode := map[*wire.N][]site{}
+	var order []*wire.N
+	seen := map[string]bool{}
+	for _, m := range marks {
+		if m.Node == nil || m.Role != "value" || m.W == 0 || m.W > 8 {
+			continue
+		}
+		if keep != nil && !keep(m.Node, m.Name) {
+			continue
+		}
+		key := fmt.Sprintf("%p.%s", m.Node, m.Name)
+		if seen[key] {
+			continue
+		}
+		seen[key] = true
+		if len(byNode[m.Node]) == 0 {
+			order = append(order, m.Node)
+		}
+		byNode[m.Node] = append(byNode[m.Node], site{m.Node, m.Name, m.W, m.Path})
+	}
+	vals := func(s site) []uint64 {
+		all := ^uint64(0)
+		if s.w < 8 {
+			all = 1<<(8*uint(s.w)) - 1
+		}
+		if all < 3 {
+			return []uint64{0, all}
+		}
+		return []uint64{0, 1, all, all - 2}
+	}
+	for _, nd := range order {
+		ss := byNode[nd]
+		for i := 0; i < len(ss); i++ {
+			for j := i + 1; j < len(ss); j++ {
+				a, b := ss[i], ss[j]
+				oa, ha := a.node.U[a.name]
+				ob, hb := b.node.U[b.name]
+				for _, va := range vals(a) {
+					for _, vb := range vals(b) {
+						a.node.U[a.name], b.node.U[b.name] = va, vb
+						f(work.Clone(), fmt.Sprintf("%s = %#x and %s = %#x", a.path, va, b.path, vb))
+					}
+				}
+				if ha {
+					a.node.U[a.name] = oa
+				} else {
+					delete(a.node.U, a.name)
+				}
+				if hb {
+					b.node.U[b.name] = ob
+				} else {
+					delete(b.node.U, b.name)
+				}
+			}
+		}
+	}
+}
+
 // PairVariations yields, for a base tree, every tree that differs from it in two fields adjacent on
 // the wire (consecutive value/bytes fields of the field map), each set to {0, all-ones, pattern}: the
 // "two deviations from base" level. A carry, a shift or a copy that runs from one field into its
